@@ -469,14 +469,14 @@ func (m *Model) applyBatchWrite(c *MClient, cmd *Cmd) Expect {
 	for _, r := range cmd.Batch {
 		t, ok := c.Tables[r.T]
 		if !ok {
-			return Expect{Out: Outcome{Class: "not-found"}, Unspecified: len(cmd.Batch) > 1}
+			return Expect{Out: Outcome{Class: "not-found"}}
 		}
 		if r.Put != nil {
 			if keyProblem(t.Def.KeyAttrs(), r.Put, false) != "" || indexProblem(t.Def, r.Put) {
-				return Expect{Out: Outcome{Class: "validation"}, Unspecified: len(cmd.Batch) > 1}
+				return Expect{Out: Outcome{Class: "validation"}}
 			}
 		} else if keyProblem(t.Def.KeyAttrs(), r.Del, true) != "" {
-			return Expect{Out: Outcome{Class: "validation"}, Unspecified: len(cmd.Batch) > 1}
+			return Expect{Out: Outcome{Class: "validation"}}
 		}
 	}
 	applied := false
